@@ -165,6 +165,39 @@ theorem instanceRun_recovers :
     instanceRunDefers.all (fun p => p.has (.dfr "recover") && p.has (.dfr "if:‹recover› != nil") && p.has (.dfr "set:<result>=Errorf")) = true := by
   decide
 
+/-! ### `instance.Run`: the shooting loop (`Model.C05.instRun`) -/
+
+/-- one regenerated iteration (the function literal called in the loop body) read as what the model's `instRun`
+meets: out of ammo (the private sentinel is returned; nothing was acquired), the schedule wait said no (the acquired
+ammo is released by the deferred `Release`, nil), a shot or a discarded shot (released, nil) -/
+def iterKind (p : Path) : Option Iter :=
+  let calls := callEvents p
+  if p.retText == "outOfAmmoErr" then
+    (if calls == ["Acquire"] && p.has (.ncond "‹Acquire#1›") && !p.has (.dfr "Release") then some .outOfAmmo else none)
+  else if p.retText != "nil" || !p.has (.cond "‹Acquire#1›") || !p.has (.dfr "Release") then none
+  else if p.has (.ncond "Wait(‹arg0›)") then (if calls == ["Acquire", "Wait(‹arg0›)"] then some .waitFalse else none)
+  else if p.has (.cond "Wait(‹arg0›)") && (calls.contains "Shoot" != calls.contains "Report") then some .shot
+  else none
+
+theorem instanceRun_iterations :
+    instanceRunIter.map iterKind = [some .outOfAmmo, some .waitFalse, some .shot, some .shot] := by decide
+
+/-- the loop around it: an iteration's error ends `Run` with that error (`instRun … (.outOfAmmo :: _) = .ooa`; a panic
+goes through the deferred `recover`: `instanceRun_recovers`); a nil iteration is followed by the loop condition
+`IsFinished(ctx)` again; when that says yes `Run` returns `ctx.Err()` (`instRun d [] = if d then .ctx else .ok`) -/
+theorem instanceRun_loop :
+    instanceRunLoop.map (fun p => (p.has .loop, p.failed, (callEvents p).filter (· != "‹iteration›"), p.retText)) =
+      [(true, some "‹iteration›", ["IsFinished(‹arg0›)"], "‹<literal>›"),
+       (false, none, ["IsFinished(‹arg0›)", "Err(‹arg0›)"], "Err(…)"),
+       (true, none, ["IsFinished(‹arg0›)", "Err(‹arg0›)"], "Err(…)")] := by decide
+
+/-- the model's `instRun` is that loop: what each kind of iteration contributes -/
+theorem instRun_is_loop (d : Bool) (rest : List Iter) (e : ErrId) :
+    instRun d [] = (if d then .ctx else .ok) ∧ instRun d (.outOfAmmo :: rest) = .ooa ∧
+    instRun d (.shot :: rest) = instRun d rest ∧ instRun d (.waitFalse :: rest) = instRun d [] ∧
+    instRun d (.shotPanic e :: rest) = .err e := by
+  refine ⟨rfl, rfl, rfl, rfl, rfl⟩
+
 /-! ### the await loop -/
 
 /-- what the model needs to know about one case of the select in `awaitRun` -/
@@ -404,9 +437,13 @@ theorem engineRun_results :
        [.comm "‹rx:make› := <-‹make(…,…)›", .ncond "‹rx:make›.Err != nil", .ret "nil"]] := by decide
 
 /-- the variant of the goroutine system `Sys` read off the source: a pool goroutine of `Engine.Run` hands its result
-over inside a `select` that also listens on the engine context -/
+over inside a `select` that also listens on the engine context; and the result loop has an iteration that consists of
+the `ctx.Done()` case alone - the receive of a pool result is one case of a `select` whose other case is the engine
+context, not a plain receive (of which the extractor shows nothing) -/
 def srcEngCfg : Sys.EngCfg :=
-  ⟨(engineRun.filter (·.contains (.go "Run"))).all (·.contains (.go "comm:<-‹arg0›.Done()"))⟩
+  ⟨(engineRun.filter (·.contains (.go "Run"))).all (·.contains (.go "comm:<-‹arg0›.Done()")),
+   (engineRun.map engineResultEvents).any (fun p => p.head? == some (.comm "<-‹arg0›.Done()")) &&
+   (engineRun.map engineResultEvents).any (fun p => p.head? == some (.comm "‹rx:make› := <-‹make(…,…)›"))⟩
 
 theorem srcEngCfg_code : srcEngCfg = Sys.EngCfg.code := by decide
 
